@@ -18,6 +18,7 @@ TRUSTED = ['rustc MIR construction (nightly)', 'pdb-facts driver', 'rule engine 
 
 def run(ctx):
     shared.session_ended_with_close_before_files_change(ctx, '9s')    # F79
+    shared.shutdown_drains_every_flushed_log(ctx, '9d')    # F80: a closed session leaves no flushed log behind
     F = ctx.F
     # ------------------------------------------------ 1. validate before touching
     o = ctx.body('db::DbInner::open')
